@@ -10,7 +10,7 @@ from nflows.utils import torchutils
 PROPERTY = "C11"
 RULE = (
     "{NaiveLinear(orthogonal init / uniform init), LULinear(identity_init on/off), QRLinear, SVDLinear(identity_init on/off), HouseholderSequence} x features 1..4 x Householder "
-    "counts 1..2F+2 (odd, even, larger than the feature count) x parameter patterns {as constructed, pat1, pat3} x dtype {float64, float32}. One case = one constructed transform with all "
+    "counts 1..2F+2 (odd, even, larger than the feature count) x parameter patterns {as constructed, pat1, pat3, patT (Householder vectors rescaled by 1e-4 / 1e4)} x dtype {float64, float32}. One case = one constructed transform with all "
     "accessor identities checked on a 3-row batch. Non-trivial = features >= 2 or a Householder count other than 2."
 )
 ASSUMPTIONS = [
@@ -95,7 +95,15 @@ def check_case(c, pname, dname, seed):
         V("constructor raises %s" % type(e).__name__, "%s(%d, %s) raised %s: %s" % (cls, F, c["opt"], type(e).__name__, str(e)[:120]))
         return out
     if pname != "init":
-        fill(m, ("pat", {"pat1": 0, "pat3": 1}[pname] + 2 * (seed % 3), {"pat1": 1.0, "pat3": 3.0}[pname]))
+        fill(m, ("pat", {"pat1": 0, "pat3": 1, "patT": 0}[pname] + 2 * (seed % 3), {"pat1": 1.0, "pat3": 3.0, "patT": 1.0}[pname]))
+        if pname == "patT":
+            # reflections are invariant under rescaling of their vectors: tiny (and huge) vectors must give the same orthogonal map
+            with torch.no_grad():
+                k = 0
+                for n_, p_ in m.named_parameters():
+                    if n_.endswith("q_vectors"):
+                        p_.mul_(1e-4 if k % 2 == 0 else 1e4)
+                        k += 1
         if cls == "NaiveLinear":
             with torch.no_grad():
                 m._weight.add_(2.0 * torch.eye(F))
@@ -181,7 +189,8 @@ def run_unit(unit):
     cs, seed = unit
     res = new_result()
     for c in cs:
-        for pname in (("init", "pat1", "pat3") if c["cls"] != "random_orthogonal" else ("init",)):
+        pats = ("init",) if c["cls"] == "random_orthogonal" else (("init", "pat1", "pat3", "patT") if "householder" in c["opt"] else ("init", "pat1", "pat3"))
+        for pname in pats:
             for dname in DT:
                 vs = check_case(c, pname, dname, seed)
                 if vs is None:
